@@ -11,7 +11,7 @@ ENCODED = ['scinumtools.materials.matter:Matter.__init__', 'scinumtools.material
 EXPLANATION = ("The density (mass or number), the volume and the proportions are positive solver variables, given in several input units with the numeric value rescaled so "
                "the physical input is the same. The real Matter._norm / data_matter run on proxies; z3 proves rho = n*M_unit, mass = rho*V, sum rho_i = rho, sum M_i = mass, "
                "n_i = amount_i*n, N_i = n_i*V and that the outputs do not depend on the input units.")
-ASSUMPTIONS = matkit.MAT_STUB_TEXT + ["all inputs positive", "claims up to 1e-9 relative, posed abs-free to nlsat"]
+ASSUMPTIONS = matkit.MAT_STUB_TEXT + ["a division by a term that may be zero forks; on the zero side the library's own ZeroDivisionError propagates and is reported (no denominator is assumed away)", "all inputs positive", "claims up to 1e-9 relative, posed abs-free to nlsat"]
 OUTSIDE = ['binary64 rounding', 'more than 3 components']
 BOUNDS = {'quick': 'element, substance (formula and dict), material (3 norm types) x {mass density, number density} x {with, without volume} x 3 input-unit choices',
           'thorough': 'same with more substances and unit choices'}
